@@ -38,7 +38,7 @@ ASSUMPTIONS = [
 ]
 SHARDS = {"quick": 12, "thorough": 14}
 FLOORS = {"quick": {"scripted_calls": 1500, "calls_after_a_failed_call": 500, "late_completions_delivered": 100,
-                    "iterator_failures": 150, "timeouts_expected": 60, "real_backend_calls": 80, "clogged_failure_cycles": 16, "clog_exception_kinds": 12, "transport_failures": 8, "callbacks_of_an_aborted_call_resumed_during_the_next_call": 25},
+                    "iterator_failures": 150, "timeouts_expected": 60, "real_backend_calls": 80, "clogged_failure_cycles": 16, "clog_exception_kinds": 12, "transport_failures": 8, "callbacks_of_an_aborted_call_resumed_during_the_next_call": 25, "dispatches_racing_with_the_end_of_a_failed_call": 12},
           "thorough": {"scripted_calls": 30000, "calls_after_a_failed_call": 10000, "late_completions_delivered": 2000,
                        "iterator_failures": 3000, "timeouts_expected": 1200, "real_backend_calls": 1200, "clogged_failure_cycles": 200, "clog_exception_kinds": 16}}
 
@@ -64,6 +64,8 @@ def cases(tier, seed):
         yield dict(kind="clog", i=i)
     for i in range(40 if tier == "quick" else 800):
         yield dict(kind="parked", i=i)
+    for i in range(30 if tier == "quick" else 600):
+        yield dict(kind="swaprace", i=i)
 
 
 def gen_history(rng, with_timeout):
@@ -168,14 +170,137 @@ def run_case(case, ctx):
         return run_real(case, ctx)
     if case["kind"] == "clog":
         return run_clog(case, ctx)
-    if case["kind"] == "parked":
-        th = threading.Thread(target=run_parked, args=(case, ctx), daemon=True)
+    if case["kind"] in ("parked", "swaprace"):
+        th = threading.Thread(target=run_parked if case["kind"] == "parked" else run_swaprace, args=(case, ctx), daemon=True)
         th.start()
         th.join(120)
         if th.is_alive():
             ctx.inconclusive("parked-scenario-watchdog", case)
         return
     run_scripted(case["i"], ctx)
+
+
+def run_swaprace(case, ctx):
+    """a completion callback is registering a NEW batch of call A (inside Parallel._dispatch, past its 'aborting?' test) at the
+    very moment the caller's thread meets A's failure and winds the call up; the same object is then called again (B).
+    On a backend without a retrieval callback completion callbacks dispatch whatever the outcome, so this overlap is the
+    ordinary case there; the thread is parked at that line by a scheduling point of the check (sys.monitoring)"""
+    import inspect
+    from joblib import Parallel, delayed
+    from vlib.scripted_backend import ScriptedBackend, Src, Trace
+
+    rng = harness.rng_for(ctx.seed, ID, "swaprace", case["i"])
+    J = rng.choice([2, 3])
+    plain_api = case["i"] % 3 != 2
+    ra = "list" if plain_api else rng.choice(["list", "generator"])
+    trace = Trace()
+    be = ScriptedBackend(trace=trace, retrieve_callback=not plain_api)
+    p = Parallel(n_jobs=J, backend=be, batch_size=1, pre_dispatch=rng.choice(["2*n_jobs", "n_jobs"]), return_as=ra)
+    desc = dict(scenario="dispatch-racing-with-the-end-of-a-failed-call", J=J, ra=ra, retrieval_callback=not plain_api)
+    src_lines, first = inspect.getsourcelines(Parallel._dispatch)
+    target = first + next(i for i, ln in enumerate(src_lines) if "BatchCompletionCallBack(" in ln)
+    # ... and the caller's thread is held right after it has recorded the failed batch's status (under the lock), before it
+    # flags the call as aborting (outside the lock)
+    from joblib.parallel import BatchCompletionCallBack
+    src_lines, first = inspect.getsourcelines(BatchCompletionCallBack._register_outcome)
+    k = next(i for i, ln in enumerate(src_lines) if ln.strip().startswith("self._result = "))
+    target_caller = first + k
+    parked, release = threading.Event(), threading.Event()
+    parked_caller, release_caller = threading.Event(), threading.Event()
+    st = {"armed": False, "caller": None, "armed_caller": True}
+
+    def hook(code, line):
+        if st["armed"] and line == target and threading.get_ident() != st["caller"]:
+            st["armed"] = False
+            parked.set()
+            release.wait(20)
+
+    def hook_caller(code, line):
+        if st["armed_caller"] and line == target_caller and threading.get_ident() == st["caller"]:
+            st["armed_caller"] = False
+            parked_caller.set()
+            release_caller.wait(20)
+
+    NA, NB = rng.choice([8, 12]), rng.choice([3, 5])
+    tagA, tagB = f"w{case['i']}A", f"w{case['i']}B"
+    resA, resB = {}, {}
+
+    def call(tag, n, fail, res, mark=False):
+        if mark:
+            st["caller"] = threading.get_ident()
+        try:
+            res["out"] = list(p(Src(n, lambda i: delayed(task)(i, tag, "Boom" if i == fail else False), trace, widen=0)))
+        except BaseException as e:  # noqa
+            res["exc"] = e
+
+    ctx.evaluated()
+    ctx.count("scripted_calls", 2)
+    _S["inj"].hooks["_dispatch"] = hook
+    _S["inj"].hooks["_register_outcome"] = hook_caller
+    try:
+        ta = threading.Thread(target=call, args=(tagA, NA, 0, resA, True), daemon=True)
+        ta.start()
+        if not be.wait_pending(2, timeout=10):
+            ctx.inconclusive("swaprace:not-enough-batches", desc)
+            return
+        pend = be.pending_snapshot()
+        failing = next(f for f in pend if 0 in f.items)
+        other = next(f for f in pend if f is not failing)
+        # 1. the failure reaches the caller's thread (through retrieve_result() or through the callback), which registers it
+        #    and enters its wind-up handler - where it is held
+        if plain_api:
+            be.take(failing)
+            be._run(failing)
+        else:
+            be.complete(failing, thread=True, wait=True, timeout=10)
+        if not parked_caller.wait(10):
+            ctx.count("swaprace_window_not_reached")
+            return
+        # 2. another batch completes: its callback dispatches the next batch and is held inside _dispatch, past the test of
+        #    the 'aborting' flag (a backend with a retrieval callback does not dispatch any more: the failure is registered)
+        st["armed"] = True
+        be.complete(other, thread=True, wait=False)
+        reached = parked.wait(3 if plain_api else 0.5)
+        if reached:
+            ctx.count("dispatches_racing_with_the_end_of_a_failed_call")
+        # 3. the caller winds the call up while that dispatch is in progress, then the dispatch goes on
+        release_caller.set()
+        time.sleep(0.05)
+        release.set()
+        ta.join(15)
+        if ta.is_alive():
+            ctx.violation("nontermination:failing-call", f"call A did not end; {desc}", desc)
+            return
+        if not isinstance(resA.get("exc"), Boom):
+            ctx.violation("task-failure:wrong-exception", f"call A whose task 0 fails gave {str(resA)[:200]}; {desc}", desc)
+            return
+        tb = threading.Thread(target=call, args=(tagB, NB, None, resB), daemon=True)
+        tb.start()
+        for _ in range(400):
+            if not tb.is_alive():
+                break
+            futs = be.pending_snapshot() + be.late_snapshot()
+            if futs:
+                be.complete(rng.choice(futs), thread=True, wait=True, timeout=10)
+                time.sleep(0.01)
+            else:
+                time.sleep(0.005)
+        tb.join(10)
+        if tb.is_alive():
+            ctx.violation("nontermination:next-call-after-failure", f"call B did not end after all batches completed; {desc}", desc)
+            return
+        if resB.get("out") != [(tagB, i) for i in range(NB)]:
+            e = resB.get("exc")
+            leak = e is None and any(x[0] != tagB for x in resB.get("out", []))
+            ctx.violation("ok-call:" + ("leftover-from-earlier-call" if leak else "wrong-result"),
+                          f"call B (ok, n={NB}) after a failed call whose last dispatch overlapped its end returned/raised "
+                          f"{type(e).__name__ + str(e.args)[:120] if e is not None else str(resB.get('out'))[:160]}; {desc}", desc)
+        ctx.sig(("swaprace", J, ra, plain_api, NA, NB))
+    finally:
+        release.set()
+        release_caller.set()
+        _S["inj"].hooks.pop("_dispatch", None)
+        _S["inj"].hooks.pop("_register_outcome", None)
 
 
 def run_parked(case, ctx):
